@@ -68,6 +68,7 @@ type poolCfg struct {
 	stallKill time.Duration
 	emitFirst int
 	extra     []string
+	trace     bool // runOnce only: let the worker name every damaged input on stderr
 }
 
 type poolOut struct {
@@ -207,6 +208,7 @@ func spawn(ctx context.Context, cfg *poolCfg, out *poolOut, wid int, start, runs
 		return start, nil, nil
 	}
 	var curIdx uint64 = start
+	var lastFault string
 	var curMu sync.Mutex
 	haveCur := false
 	lastDone := start
@@ -241,6 +243,13 @@ func spawn(ctx context.Context, cfg *poolCfg, out *poolOut, wid int, start, runs
 				continue
 			}
 			if ln == "VERIF-ALIVE" {
+				ping()
+				continue
+			}
+			if strings.HasPrefix(ln, "VERIF-FAULT ") {
+				curMu.Lock()
+				lastFault = strings.TrimPrefix(ln, "VERIF-FAULT ")
+				curMu.Unlock()
 				ping()
 				continue
 			}
@@ -352,9 +361,11 @@ loop:
 	case code == 66 && !stalled:
 		// race detector exit code at process end; reports were captured from stderr
 		return last, exitErr, nil
-	case code == 2 && !stalled:
+	case code == 4 && !stalled:
+		// the worker's own "cannot even start" code (bad flags, unreadable sites file).
+		// (A Go runtime fatal error exits 2 and is handled below as an abnormal death.)
 		out.mu.Lock()
-		out.infraErrs = append(out.infraErrs, "worker exited 2: "+tail(errTail.String(), 600))
+		out.infraErrs = append(out.infraErrs, "worker exited 4: "+tail(errTail.String(), 600))
 		out.mu.Unlock()
 		return last, exitErr, nil
 	}
@@ -366,7 +377,11 @@ loop:
 			kind = "stall"
 		}
 		site := crashSite(txt)
-		crash = &found{Idx: curIdx, V: Violation{Kind: kind, Site: site, Detail: fmt.Sprintf("worker process died during run %d (exit %d, stalled=%v): %s", curIdx, code, stalled, firstLine(txt))}, Report: tail(txt, 6000)}
+		det := fmt.Sprintf("worker process died during run %d (exit %d, stalled=%v): %s", curIdx, code, stalled, firstLine(txt))
+		if lastFault != "" {
+			det += " | last input: " + lastFault
+		}
+		crash = &found{Idx: curIdx, V: Violation{Kind: kind, Site: site, Detail: det}, Report: tail(txt, 6000)}
 		last = curIdx
 	}
 	return last, exitErr, crash
@@ -477,6 +492,9 @@ func runOnce(cfg *poolCfg, idx uint64, tapeFile string, timeout time.Duration) *
 	c.emitFirst = 0
 	c.extra = append([]string(nil), cfg.extra...)
 	c.extra = append(c.extra, "-emit")
+	if cfg.trace {
+		c.eng.envExtr = append(append([]string(nil), cfg.eng.envExtr...), "VERIF_TRACE_FAULTS=1")
+	}
 	if tapeFile != "" {
 		c.extra = append(c.extra, "-replay", tapeFile)
 	}
